@@ -4,11 +4,12 @@
 
    Model: Compiler/ParseBlocks.v.  `extract_*_v fixed cap lf` is the extractor of
      fixed = false, cap = None     : /repo as of 45ce265 (before the fixes below)
-     fixed = true,  cap = Some 100 : /repo as of 623c615 = 45ce265 + 2da11ec (F11a: legacy headers without
+     fixed = true,  cap = Some 100 : /repo as of 19fd338 = 45ce265 + 2da11ec (F11a: legacy headers without
                                      `>>` are diagnosed) + 179a3c4 (F11b: nesting cap) + b0767bb (glue
                                      honoured by every text flush of an @if branch) + 623c615 (comment
-                                     lines at the head of a loop body dropped before dedenting); the
-                                     unsuffixed names
+                                     lines at the head of a loop body dropped before dedenting) + 3dd8bdc
+                                     (blank lines of an @py: body emptied) + 19fd338 (continuation lines
+                                     of a `~` statement in a branch dedented); the unsuffixed names
      fixed = true,  cap = None     : the same without the nesting cap
    for ARBITRARY line-level functions `lf : linefns` (part A's ParseLine.v is one instance).
    Token kinds: the extractors return `token` (Story/Compiled.v), so "only documented kinds" holds by
@@ -71,7 +72,7 @@ Print Assumptions extractors_total.
 (* the only internal error of extract_python_block is lines[start_index] out of range *)
 Theorem python_block_internal_only_out_of_range : forall lines start e,
   extract_python_block lines start = PInternal e -> length lines <= start /\ e = IIndex.
-Proof. exact extract_python_block_internal_iff. Qed.
+Proof. exact (extract_python_block_internal_iff true). Qed.
 Print Assumptions python_block_internal_only_out_of_range.
 
 (* The code before commit 2da11ec was NOT total: `<<if x` without `>>` escapes with UnboundLocalError (F11a),
@@ -169,3 +170,19 @@ Example sample_loop_leading_comment :
   /\ extract_loop_block_cur lf_sample ["@for x in xs:"; "# note"; "    item"; "@endfor"] 0
   = POk (TLoop "x" "xs" [TText "    item"; tnl] [], 4).
 Proof. split; vm_compute; reflexivity. Qed.
+
+(* an @py: body: whitespace-only lines emptied (3dd8bdc); a multi-line ~ statement inside a branch:
+   continuation lines lose the indentation of the ~ line (19fd338; lf_sample's
+   extract_multiline_expression reports one line, so the instance below uses a two-line reader) *)
+Example sample_py_blank_lines :
+  extract_python_block ["@py:"; "  a = 1"; "   "; "  b = 2"; "@endpy"] 0 = POk ("a = 1" ++ nl ++ nl ++ "b = 2", 5)
+  /\ extract_python_block_cur ["@py:"; "  a = 1"; "   "; "  b = 2"; "@endpy"] 0
+     = POk ("a = 1" ++ nl ++ "   " ++ nl ++ "b = 2", 5).
+Proof. split; vm_compute; reflexivity. Qed.
+
+Example sample_statement_continuation :
+  let lf2 := mkLinefns (lf_content lf_sample) (lf_choice lf_sample) (lf_render lf_sample) (lf_input lf_sample)
+                       (fun _ _ c => (c, 2)) (lf_eta lf_sample) in
+  extract_conditional_block lf2 ["@if a:"; "    ~ x = ["; "      1]"; "@endif"] 0
+  = POk (TCond [Branch "a" [TPyStmt ("x = [" ++ nl ++ "  1]")] []], 4).
+Proof. vm_compute. reflexivity. Qed.
